@@ -106,6 +106,5 @@ package cache
 //@   ensures r1 == nil ==> len(r0) == len(servers)
 //@ func MemcachedJumpHashSelector.SetServers
 //@   property C19
-//@   nowrite servers
 //@   at before@memcache.ResolveServers: assert natural_order: natSorted($a0) && len($a0) == len(servers)
 //@   ensures  count: result == nil ==> len(s.addrs) == len(servers)
